@@ -38,7 +38,7 @@ Proof.
   unfold cb_overflow. cbn [fst].
   destruct HI as [(N1 & -> & R & P & S & B & E)|(N1 & R & P & B & E & S & Z)]; rewrite N1.
   - (* first overflow *)
-    rewrite Hs, S. cbn [N.eqb]. rewrite S. cbn [N.eqb].
+    rewrite Hs, ?S. cbn [N.eqb].
     destruct ch as [x|]; cbn; unfold CB_INIT; repeat split; try (now rewrite Ha).
   - assert (Hz : (c_size y =? 0) = false) by (apply N.eqb_neq; lia). rewrite Hz.
     destruct (N.eqb_spec (cb_pptr b) (cb_epptr b)) as [Eq|Ne].
@@ -103,3 +103,9 @@ Proof.
     replace (W ++ s) with (((W ++ takeN k s) ++ [x]) ++ r); [exact IH|].
     rewrite <- !app_assoc. f_equal. rewrite <- (take_drop k s) at 2. rewrite ED. reflexivity.
 Qed.
+
+Lemma Sim_all : forall fuel W y b d c s x, (length s < fuel)%nat -> Sim W y b ->
+  Sim (W ++ s) (fst (fst (cpy_xsputn fuel y d c s))) (fst (cb_xsputn fuel b s)) /\
+  Sim (W ++ [x]) (fst (fst (cpy_sputc y d c x))) (fst (cb_sputc b x)) /\
+  Sim [] (mkCpy [] [] 0 0) cb0.
+Proof. intros fuel W y b d c s x Hf H. split; [now apply Sim_xsputn|]. split; [now apply Sim_sputc|exact Sim0]. Qed.
